@@ -79,7 +79,7 @@ def gen_cases(rng, nprog, nif):
         progs.append(p)
         gg = eg.IfGoalGen(rng, p)
         seen = set()
-        for g, kind in [(gg.if_goal(), "if") for _ in range(nif)] + [(g, "sweep") for g in gg.sweep()]:
+        for g, kind in [(gg.if_goal(), "if") for _ in range(nif)] + [(g, "sweep") for g in gg.sweep()] + [(g, "sweep2") for g in gg.sweep2()]:
             t = eg.goal_text(g)
             if t in seen:
                 continue
